@@ -291,7 +291,7 @@ def IMG_RAND(run):
 def c08(run):
     run.scen("MC_Bmp", {"MaxWidth": 70 if run.thorough else 40, "Seed": vlib.SEED % 300, "NRand": 2000 if run.thorough else 300}, invariants=BMP_INV, workers=8, own=by_prefix("bmp_", "scenario"))
     # whatever the reader accepts among the faulted images of the C11 fault model must satisfy the post-conditions C08 states
-    run.scen("MC_ImageFault", IMG_RAND(run), small_heap=True, max_crashes=300, own=lambda m: "/postcondition" in m["site"], name="MC_ImageFault (post-conditions of accepted bitmaps)")
+    run.scen("MC_ImageFault", IMG_RAND(run), small_heap=True, max_crashes=300, own=lambda m: "/postcondition" in m["site"] and "prt" not in m["site"].split("/")[1], name="MC_ImageFault (post-conditions of accepted bitmaps)")
 
 
 def c09(run):
@@ -300,6 +300,8 @@ def c09(run):
 
 def c10(run):
     run.scen("MC_Prt", {"Seed": vlib.SEED % 300, "NRand": 600 if run.thorough else 120}, invariants=("RulesAsIntended", "TotalsMatch", "EncodingDeterminedByValue", "NonCanonicalHeaderSameLength", "Export"), workers=8)
+    # whatever the reader accepts among the faulted PRT images of the C11 fault model satisfies the rules and round-trips
+    run.scen("MC_ImageFault", IMG_RAND(run), small_heap=True, max_crashes=300, own=lambda m: "/postcondition" in m["site"] and "prt" in m["site"], name="MC_ImageFault (post-conditions of accepted PRT files)")
 
 
 def c11(run):
